@@ -64,6 +64,10 @@ def run(chk, replay=None):
     base = os.path.join(wd, 'base'); os.makedirs(base)
     open(os.path.join(base, 'a.cellml'), 'w').write(A_CELLML)
     open(os.path.join(base, 'notxml.cellml'), 'w').write('<model')
+    # a library whose component has a variable without units next to one whose units clash with the importer's
+    open(os.path.join(base, 'b.cellml'), 'w').write('<?xml version="1.0"?><model xmlns="http://www.cellml.org/cellml/2.0#" name="b"><units name="u"><unit units="second"/></units>'
+                                                    '<component name="c"><variable name="v" units="u"/><variable name="w"/><component name="k"/></component>'
+                                                    '<component name="k"><variable name="z"/></component><encapsulation><component_ref component="c"><component_ref component="k"/></component_ref></encapsulation></model>')
     try:
         # 1. correspondence: the guarded walk vs the real referencedUnits on random unit graphs (cycles, dangling references)
         n = 150 if chk.tier == 'quick' else 1500
@@ -89,7 +93,9 @@ def run(chk, replay=None):
             if r.get('input_hex') is not None:
                 inputs = [(bytes.fromhex(r['input_hex']), r.get('what', 'replay'))]
         else:
-            inputs = list(H.FIXED) + [(t.encode(), 'math string: ' + t[:30]) for t in (
+            inputs = list(H.FIXED) + [(('<?xml version="1.0"?><model xmlns="http://www.cellml.org/cellml/2.0#" name="m"><import xmlns:xlink="http://www.w3.org/1999/xlink" xlink:href="b.cellml">'
+                                        '<component component_ref="c" name="ic"/></import><units name="u"><unit units="%s"/></units><component name="own"><variable name="q" units="u"/></component></model>' % un).encode(),
+                                       'import of a component with a variable without units, units name clash (%s)' % un) for un in ('metre', 'second')] + [(t.encode(), 'math string: ' + t[:30]) for t in (
                 '', 'not xml', '<math', '<math xmlns="http://www.w3.org/1998/Math/MathML">&foo;</math>', '<a/><b', '<math xmlns="http://www.w3.org/1998/Math/MathML"><apply><eq/><ci>x</ci></math>',
                 '<math xmlns="http://www.w3.org/1998/Math/MathML"><ci>x</ci></math>', '<math xmlns="http://www.w3.org/1998/Math/MathML"/><math xmlns="http://www.w3.org/1998/Math/MathML"><apply/></math>',
                 '<?xml version="1.0"?><math xmlns="http://www.w3.org/1998/Math/MathML"><apply><eq/><ci>x</ci><cn>1</cn></apply></math>', '<root><math xmlns="http://www.w3.org/1998/Math/MathML"/></root>', '<![CDATA[x]]>', '&amp;')]
